@@ -407,8 +407,11 @@ func (db *DB) get(in Object) (out Object, err error) {
 	}
 
 	path = filepath.Join(db.oDir(in), s.filename(in))
-	err = unmarshalJsonFile(path, in)
-	out = in
+	// the file is decoded into a blank object, members it does not hold
+	// (i.e. omitempty) must not take the values the caller's object has
+	out = newIterator(db, in, nil).object()
+	out.Initialize(in.UUID())
+	err = unmarshalJsonFile(path, out)
 
 	// we cache the object only if it could be read
 	if s.mustCache() && err == nil {
